@@ -1,6 +1,36 @@
 use lolv::engine::{Ctx, Tier, drive};
 use std::path::PathBuf;
 
+/// Counts live heap bytes while `COUNTING` is set (only the single-threaded `--heap` probe of
+/// C10 turns it on; otherwise a relaxed load per allocation).
+struct CountingAlloc;
+static COUNTING: std::sync::atomic::AtomicBool = std::sync::atomic::AtomicBool::new(false);
+static LIVE: std::sync::atomic::AtomicIsize = std::sync::atomic::AtomicIsize::new(0);
+
+unsafe impl std::alloc::GlobalAlloc for CountingAlloc {
+    unsafe fn alloc(&self, l: std::alloc::Layout) -> *mut u8 {
+        if COUNTING.load(std::sync::atomic::Ordering::Relaxed) {
+            LIVE.fetch_add(l.size() as isize, std::sync::atomic::Ordering::Relaxed);
+        }
+        unsafe { std::alloc::System.alloc(l) }
+    }
+    unsafe fn dealloc(&self, p: *mut u8, l: std::alloc::Layout) {
+        if COUNTING.load(std::sync::atomic::Ordering::Relaxed) {
+            LIVE.fetch_sub(l.size() as isize, std::sync::atomic::Ordering::Relaxed);
+        }
+        unsafe { std::alloc::System.dealloc(p, l) }
+    }
+    unsafe fn realloc(&self, p: *mut u8, l: std::alloc::Layout, new_size: usize) -> *mut u8 {
+        if COUNTING.load(std::sync::atomic::Ordering::Relaxed) {
+            LIVE.fetch_add(new_size as isize - l.size() as isize, std::sync::atomic::Ordering::Relaxed);
+        }
+        unsafe { std::alloc::System.realloc(p, l, new_size) }
+    }
+}
+
+#[global_allocator]
+static ALLOC: CountingAlloc = CountingAlloc;
+
 fn main() {
     let args: Vec<String> = std::env::args().skip(1).collect();
     if args.is_empty() {
@@ -48,6 +78,23 @@ fn main() {
                 lolv::engine::install_quiet_panic_hook();
                 let n: usize = args[i + 2].parse().expect("n");
                 match lolv::props::c15::run_big(&args[i + 1], n) {
+                    Ok(m) => {
+                        println!("OK {m}");
+                        return;
+                    }
+                    Err(e) => {
+                        println!("FAILED {e}");
+                        std::process::exit(1);
+                    }
+                }
+            }
+            "--heap" => {
+                // C10: heap growth of a live rewriter under a memory limit (child process, one thread)
+                let n: usize = args[i + 2].parse().expect("n");
+                COUNTING.store(true, std::sync::atomic::Ordering::SeqCst);
+                let r = lolv::props::c10::heap_probe(&args[i + 1], n, &|| LIVE.load(std::sync::atomic::Ordering::SeqCst));
+                COUNTING.store(false, std::sync::atomic::Ordering::SeqCst);
+                match r {
                     Ok(m) => {
                         println!("OK {m}");
                         return;
